@@ -15,13 +15,13 @@ func init() {
 		ID:    "C13",
 		Title: "A transient lower-layer failure fails one call and nothing else",
 		Explanation: "Decided (structural necessary conditions, each over the EFFECTIVE BODY of the function concerned: the function plus, transitively to depth 6, the declared functions, methods, bound method values and function literals its call/go/defer instructions and spawner arguments run, with arguments mapped to parameters): " +
-			"G-gate - every syncutil.Gate slot taken in the storage, sorted-KV, schema, index, server and search packages is released on every CFG path: by a Done, a defer, a helper (or deferred/spawned named function) EVERY path of which releases the same gate, or a goroutine all of whose paths do; a helper that returns holding the slot (always, or exactly on its err==nil returns) passes the obligation to each of its call sites, but only when every use of the helper is a visible static call; slots deliberately owned by a returned object (sqlkv *batchTx, *iter - recognised by the TYPE returned, wherever it is built) must be released on all paths of that object's Close/CommitBatch; " +
+			"G-gate - every syncutil.Gate slot taken in the storage, sorted-KV, schema, index, server and search packages is released on every CFG path: by a Done, a defer, a helper (or deferred/spawned named function) EVERY path of which releases the same gate, or a goroutine all of whose paths do; a helper that returns holding the slot (always, or exactly on its err==nil returns) passes the obligation to each of its call sites, but only when every use of the helper is a visible static call; slots deliberately owned by a returned object (sqlkv *batchTx, *iter - recognised by the TYPE returned, wherever it is built) must be released on all paths of that object's Close/CommitBatch; the one exemption is the join-by-draining idiom - a loop that runs exactly N times (counting up from 0 or 1, counting down to 0, any comparison form, rotated range-over-int) around a Start (or around a helper that returns holding one slot) on a gate created by syncutil.NewGate(N) (directly or by a helper every return of which is a fresh NewGate) in the SAME top-level function, where gate and bound may reach the loop as parameters of helpers if EVERY static caller, transitively, passes such a gate and its capacity and the helper has no other use; " +
 			"G-lock - the same pairing for every sync.Mutex/RWMutex Lock/RLock (mode and mutex path must match); " +
 			"G-rollback - in the effective body of diskpacked.(*storage).ReceiveBlob, located by role not by name: the undo Truncate/Seek after a failed index update rewinds to a value read from the size-tracking field BEFORE the append advanced it, no (transitive) writer of the file field lies between that capture and the undo (helpers followed), every exit reachable from the Truncate reports an error, and a Truncate undo sits on the failure edge of the index update (sorted.KeyValue.Set or a wrapper that succeeds only if Set did); " +
 			"G-tmp - files.ReceiveBlob registers the temp-file cleanup before any later return (shared with C03); G-errval - in the storage packages a pointer/interface co-returned with an error is dereferenced only where that error is known nil; G-chan - a channel with several sender goroutines (followed through parameters, literals and returning helpers) is closed only after a join that precedes the close in its function or in every synchronous caller; G-enum - enumerators close their channel on every path (rule E-close, shared with C01); G-recover - what a store's own recovery procedure reads is destroyed only after its replacement is durable (rules X-compact of C11, Z-order of C04, D-dele-order/D-destroy/F-destroy of C03, shared). " +
 			"NOT decided: bounded completion time, agreement with the reference map after the fault, success of recovery procedures, any concrete fault schedule; releases that depend on a run-time flag other than the resource's own nil test or the acquiring helper's error; that a join waits for the group that actually runs the senders.",
 		RuleDocs: map[string]string{
-			"G-gate":     "interprocedural H4 pairing over every (*syncutil.Gate).Start (and every call of a helper that returns holding a slot) in pkg/blobserver/..., pkg/sorted/..., pkg/schema, pkg/index, pkg/server, pkg/search: all paths to exits pass a Done on the same gate (access path mapped through parameters/receivers/captures), a defer, a helper or deferred/spawned function all of whose paths release it, or the hand-over to a returned holder object whose release entry points release on all paths",
+			"G-gate":     "interprocedural H4 pairing over every (*syncutil.Gate).Start (and every call of a helper that returns holding a slot) in pkg/blobserver/..., pkg/sorted/..., pkg/schema, pkg/index, pkg/server, pkg/search: all paths to exits pass a Done on the same gate (access path mapped through parameters/receivers/captures), a defer, a helper or deferred/spawned function all of whose paths release it, or the hand-over to a returned holder object whose release entry points release on all paths; exempt: a full drain (loop of exactly N slot acquisitions) of a gate created with NewGate(N) in the function whose effective body contains the loop, gate and bound followed through helper parameters into every static caller",
 			"G-lock":     "the same interprocedural pairing over every Lock/RLock on sync.Mutex/RWMutex in the same packages; single-statement Lock methods and helpers that return holding the lock (all uses visible static calls) move the obligation to their call sites",
 			"G-rollback": "typestate over the effective body of diskpacked.(*storage).ReceiveBlob: offset of the undo Seek/Truncate = pre-append value of the size field (through parameters, getters, captured variables); no transitive writer of the file field between capture and undo; the Truncate is followed only by failing returns; one Truncate undo lies on the failure edge of the index update",
 			"G-recover":  "shared obligations of C11 X-compact, C04 Z-order, C03 D-dele-order/D-destroy/F-destroy: the data a store's own recovery procedure reads (small meta blobs, loose blobs, pack extents, final blob files) is destroyed only after its replacement is durable and only by the removal entry points, on every path including error edges",
@@ -323,6 +323,7 @@ type c13Acq struct {
 	path string
 	ev   ssa.Value     // non-nil: the resource is held only where this error value is nil
 	via  *ssa.Function // acquiring helper, nil for a primitive acquire
+	recv ssa.Value     // the resource as a value of the acquiring function's frame (nil if not a plain argument)
 }
 
 type c13ClsKey struct {
@@ -487,7 +488,11 @@ func (e *c13Pair) acqAt(c CallSite) []c13Acq {
 		return nil
 	}
 	if p, ok := e.acquire(c); ok {
-		return []c13Acq{{path: p}}
+		a := c13Acq{path: p}
+		if args := c.Args(); len(args) > 0 {
+			a.recv = args[0]
+		}
+		return []c13Acq{a}
 	}
 	f := c.Callee()
 	if f == nil || f.Parent() != nil || !e.mayAcq[f] || len(f.Blocks) == 0 {
@@ -500,6 +505,14 @@ func (e *c13Pair) acqAt(c CallSite) []c13Acq {
 			continue
 		}
 		a := c13Acq{path: up, via: f}
+		// the helper holds what one of its parameters denotes: that argument
+		if _, pre, bare := c13SplitPath(h.path); pre == "" {
+			for i, prm := range f.Params {
+				if prm.Name() == bare && i < len(c.Args()) {
+					a.recv = c.Args()[i]
+				}
+			}
+		}
 		if h.onSuccess {
 			if call := c.Value(); call != nil {
 				if ev, _, discarded := ErrValue(call); ev != nil && !discarded {
@@ -967,8 +980,8 @@ func ruleGGate(p *Program, r *Reporter, fns []*ssa.Function) {
 		return cl
 	}
 	n := e.scan(r, fns, func(c CallSite, a c13Acq) (string, bool) {
-		if a.via == nil && drainIdiom(c) {
-			return "drains all tokens of a function-local gate to join workers (capacity constant matches loop bound)", true
+		if a.ev == nil && e.drainIdiom(c, a.recv) {
+			return "drains all tokens of a function-local gate to join workers (the gate is created by NewGate(N) in the function whose effective body this loop belongs to - followed through parameters into every static caller - and the loop runs exactly N times)", true
 		}
 		return "", false
 	})
@@ -986,20 +999,19 @@ func newC13PairLike(e *c13Pair) *c13Pair {
 		clsMemo: map[c13ClsKey]*c13Class{}, handMemo: map[*ssa.Function]int{}}
 }
 
-// drainIdiom recognises a counting loop of exactly N iterations around
-// g.Start() on a gate created in the same function by syncutil.NewGate(N)
-// (any loop form: `for range N`, `for i := 0; i < N; i++`, `N > i`, `i != N`).
-func drainIdiom(c CallSite) bool {
-	recv := originValue(c.Args()[0])
-	mk, ok := recv.(*ssa.Call)
-	if !ok || !(CallSite{mk.Parent(), mk}).IsStatic("go4.org/syncutil", "", "NewGate") {
-		return false
-	}
-	if c.Fn != mk.Parent() {
-		return false
-	}
-	capN, ok := ConstInt(mk.Call.Args[0])
-	if !ok {
+// drainIdiom recognises the join-by-draining idiom over the EFFECTIVE BODY of
+// the function that creates the gate: the instruction c (a primitive Start on
+// gate value g, or a call of a helper that returns holding one slot of g) sits
+// in a counting loop of exactly n iterations (any loop form: `for range n`,
+// `for i := 0; i < n; i++`, `n > i`, `i != n`), g denotes a gate created by
+// syncutil.NewGate(N) - directly, through a creating helper every return of
+// which yields a fresh NewGate - in the same top-level function or, when g
+// (and n) are parameters, in EVERY static caller (transitively, all uses of
+// each helper on the way being visible static calls), and n == N there (equal
+// constants, or the very same value). Such a gate is garbage once the creating
+// call returns: the slots taken cannot block any later call.
+func (e *c13Pair) drainIdiom(c CallSite, g ssa.Value) bool {
+	if g == nil {
 		return false
 	}
 	b := c.Block()
@@ -1007,19 +1019,8 @@ func drainIdiom(c CallSite) bool {
 		return false
 	}
 	for _, f := range FactsAt(b) {
-		bo, ok := f.Cond.(*ssa.BinOp)
-		if !ok {
-			continue
-		}
-		x, xc := ConstInt(bo.X)
-		y, yc := ConstInt(bo.Y)
-		switch {
-		case bo.Op == token.LSS && f.Val && yc && y == capN, // i < N
-			bo.Op == token.GTR && f.Val && xc && x == capN,                          // N > i
-			bo.Op == token.NEQ && f.Val && ((yc && y == capN) || (xc && x == capN)), // i != N
-			bo.Op == token.GEQ && !f.Val && yc && y == capN,                         // !(i >= N)
-			bo.Op == token.EQL && !f.Val && ((yc && y == capN) || (xc && x == capN)):
-			if c13CountsFromZero(bo, capN) {
+		for _, bound := range c13TripCounts(f, b) {
+			if e.drainResolve(c.Fn, nil, g, bound, 0) {
 				return true
 			}
 		}
@@ -1027,42 +1028,314 @@ func drainIdiom(c CallSite) bool {
 	return false
 }
 
-// c13CountsFromZero: the non-constant operand of the loop test is an induction
-// variable that starts at 0 and is incremented by 1 (or the rotated guard
-// `0 < N` of a range-over-int loop).
-func c13CountsFromZero(bo *ssa.BinOp, capN int64) bool {
-	iv := bo.X
-	if n, ok := ConstInt(bo.X); ok {
-		if n == 0 {
-			return true // rotated guard `0 < N`
-		}
-		iv = bo.Y
+// c13TripCounts: the values n such that, by the loop test established by fact
+// f, the loop around block b runs exactly n times: `for i := 0; i < n; i++`
+// (also `n > i`, `i != n`, negated forms, the rotated `for range n`),
+// `for i := 1; i <= n; i++`, and the counting-down forms `for i := n; i > 0; i--`
+// (`i != 0`, `i >= 1`).
+func c13TripCounts(f CondFact, b *ssa.BasicBlock) []ssa.Value {
+	bo, ok := f.Cond.(*ssa.BinOp)
+	if !ok {
+		return nil
 	}
-	// rotated loops test the incremented value: i+1 < N
+	op := bo.Op
+	if !f.Val {
+		switch op {
+		case token.LSS:
+			op = token.GEQ
+		case token.GEQ:
+			op = token.LSS
+		case token.GTR:
+			op = token.LEQ
+		case token.LEQ:
+			op = token.GTR
+		case token.EQL:
+			op = token.NEQ
+		case token.NEQ:
+			op = token.EQL
+		default:
+			return nil
+		}
+	}
+	flip := map[token.Token]token.Token{token.LSS: token.GTR, token.GTR: token.LSS, token.LEQ: token.GEQ, token.GEQ: token.LEQ, token.NEQ: token.NEQ, token.EQL: token.EQL}
+	fop, ok := flip[op]
+	if !ok {
+		return nil
+	}
+	var out []ssa.Value
+	// the relation `iv op other` holds inside the loop
+	try := func(iv ssa.Value, op token.Token, other ssa.Value) {
+		switch op {
+		case token.LSS, token.NEQ:
+			if c13CountsFromZero(f, iv, other, b) {
+				out = append(out, other)
+			}
+		case token.LEQ:
+			if _, init, ok := c13Induction(iv, token.ADD); ok {
+				if n, isC := ConstInt(init); isC && n == 1 {
+					out = append(out, other)
+				}
+			}
+		}
+		// counting down to zero
+		if k, isC := ConstInt(other); isC && ((k == 0 && (op == token.GTR || op == token.NEQ)) || (k == 1 && op == token.GEQ)) {
+			if _, init, ok := c13Induction(iv, token.SUB); ok {
+				out = append(out, init)
+			}
+		}
+	}
+	try(bo.X, op, bo.Y)
+	try(bo.Y, fop, bo.X)
+	return out
+}
+
+// c13Induction: v is a loop variable `phi [init, phi (+|-) 1]`; returns the phi
+// and its initial value.
+func c13Induction(v ssa.Value, step token.Token) (*ssa.Phi, ssa.Value, bool) {
+	ph, ok := v.(*ssa.Phi)
+	if !ok || len(ph.Edges) != 2 {
+		return nil, nil, false
+	}
+	var init ssa.Value
+	stepped := false
+	for _, e := range ph.Edges {
+		if inc, ok := e.(*ssa.BinOp); ok && inc.Op == step && inc.X == ssa.Value(ph) {
+			if one, ok := ConstInt(inc.Y); ok && one == 1 {
+				stepped = true
+				continue
+			}
+		}
+		if init != nil {
+			return nil, nil, false
+		}
+		init = e
+	}
+	if !stepped || init == nil {
+		return nil, nil, false
+	}
+	return ph, init, true
+}
+
+// c13SameInt: two integer values known to be equal: equal constants, or one
+// and the same SSA value (a load of a variable that is assigned more than once
+// is a value of its own, so two such loads never compare equal).
+func c13SameInt(a, b ssa.Value) bool {
+	if a == nil || b == nil {
+		return false
+	}
+	x, xc := ConstInt(a)
+	y, yc := ConstInt(b)
+	if xc || yc {
+		return xc && yc && x == y
+	}
+	oa, ob := originValue(a), originValue(b)
+	if oa != ob {
+		return false
+	}
+	switch oa.(type) {
+	case *ssa.Parameter, *ssa.Call, *ssa.BinOp, *ssa.Extract, *ssa.Convert:
+		return true
+	}
+	return false
+}
+
+// c13NewGateCap: v is a fresh gate; the capacity it was created with, as a
+// value of fn's frame (fn = the function v belongs to). Either a call of
+// syncutil.NewGate, or a call of a declared helper EVERY return of which yields
+// a fresh gate (the capacity a constant, or a parameter of the helper mapped to
+// the call's argument).
+func c13NewGateCap(v ssa.Value, depth int) (ssa.Value, *ssa.Call, bool) {
+	call, ok := originValue(v).(*ssa.Call)
+	if !ok || depth > 3 {
+		return nil, nil, false
+	}
+	c := CallSite{call.Parent(), call}
+	if c.IsStatic("go4.org/syncutil", "", "NewGate") {
+		return call.Call.Args[0], call, true
+	}
+	f := c.Callee()
+	if f == nil || f.Parent() != nil || len(f.Blocks) == 0 {
+		return nil, nil, false
+	}
+	idx := -1
+	res := f.Signature.Results()
+	for i := 0; i < res.Len(); i++ {
+		if IsNamed(res.At(i).Type(), "go4.org/syncutil", "Gate") {
+			if idx >= 0 {
+				return nil, nil, false
+			}
+			idx = i
+		}
+	}
+	if idx < 0 || res.Len() != 1 {
+		return nil, nil, false
+	}
+	var capv ssa.Value
+	rets := Returns(f)
+	if len(rets) == 0 {
+		return nil, nil, false
+	}
+	for _, ri := range rets {
+		if idx >= len(ri.Results) {
+			return nil, nil, false
+		}
+		inner, _, ok := c13NewGateCap(ri.Results[idx], depth+1)
+		if !ok {
+			return nil, nil, false
+		}
+		// into the caller's frame
+		var up ssa.Value
+		if _, isConst := ConstInt(inner); isConst {
+			up = originValue(inner)
+		} else if prm, isParam := originValue(inner).(*ssa.Parameter); isParam && prm.Parent() == f {
+			for i, q := range f.Params {
+				if q == prm && i < len(c.Args()) {
+					up = c.Args()[i]
+				}
+			}
+		}
+		if up == nil {
+			return nil, nil, false
+		}
+		if capv != nil && !c13SameInt(capv, up) {
+			return nil, nil, false
+		}
+		capv = up
+	}
+	return capv, call, true
+}
+
+// drainResolve: in the frame of fn, g is a gate and n a loop bound. Does g
+// denote a gate freshly created with capacity n inside the top-level function
+// whose effective body fn belongs to? site is the call in fn that leads to
+// the draining loop (nil when the loop itself is in fn): it must not be
+// repeated by a loop that does not also create the gate anew.
+func (e *c13Pair) drainResolve(fn *ssa.Function, site ssa.Instruction, g, n ssa.Value, depth int) bool {
+	if depth > c13MaxDepth {
+		return false
+	}
+	g0 := originValue(g)
+	if capv, mk, ok := c13NewGateCap(g0, 0); ok {
+		// created by the function that drains it (or the function its literal belongs to)
+		if site != nil && inLoop(site.Block()) && !(mk.Parent() == site.Parent() && inLoop(mk.Block())) {
+			return false
+		}
+		return TopFunc(mk.Parent()) == TopFunc(fn) && c13SameInt(capv, n)
+	}
+	prm, ok := g0.(*ssa.Parameter)
+	if !ok {
+		return false
+	}
+	// a parameter: the same must hold for what EVERY caller passes
+	pf := prm.Parent()
+	if pf == nil || pf.Parent() != nil || TopFunc(fn) != pf || e.visibleCallers(pf) == 0 {
+		return false
+	}
+	if site != nil && inLoop(site.Block()) {
+		return false // the same gate would be drained once per iteration
+	}
+	index := func(v ssa.Value) int {
+		for i, q := range pf.Params {
+			if ssa.Value(q) == v {
+				return i
+			}
+		}
+		return -1
+	}
+	gi, ni := index(prm), -1
+	n0 := originValue(n)
+	if _, isConst := ConstInt(n0); !isConst {
+		if ni = index(n0); ni < 0 {
+			return false
+		}
+	}
+	callers := e.p.StaticCallers(pf)
+	for _, cs := range callers {
+		args := cs.Args()
+		if gi < 0 || gi >= len(args) || ni >= len(args) {
+			return false
+		}
+		nArg := n0
+		if ni >= 0 {
+			nArg = args[ni]
+		}
+		if !e.drainResolve(cs.Fn, cs.Instr, args[gi], nArg, depth+1) {
+			return false
+		}
+	}
+	return len(callers) > 0
+}
+
+// c13CountsFromZero: the loop test established by fact f (induction operand iv,
+// bound operand bound) makes the loop around block b run exactly `bound` times:
+// iv is an induction variable that starts at 0 and is incremented by 1; for the
+// rotated form of a range-over-int loop f is the guard `0 < bound` and the test
+// `iv+1 < bound` at the bottom of the loop leads back to the loop head.
+func c13CountsFromZero(f CondFact, iv, bound ssa.Value, b *ssa.BasicBlock) bool {
+	isInduction := func(v ssa.Value) (*ssa.Phi, bool) {
+		ph, init, ok := c13Induction(v, token.ADD)
+		if !ok {
+			return nil, false
+		}
+		n, isC := ConstInt(init)
+		return ph, isC && n == 0
+	}
+	if z, ok := ConstInt(iv); ok {
+		// rotated guard `0 < N` (`N > 0`, `N != 0`): the test proper sits at the bottom
+		if z != 0 || f.At == nil || len(f.At.Succs) != 2 {
+			return false
+		}
+		for _, head := range f.At.Succs {
+			if !(head == b || head.Dominates(b)) {
+				continue
+			}
+			for _, in := range head.Instrs {
+				phi, isPhi := in.(*ssa.Phi)
+				if !isPhi {
+					break
+				}
+				if _, ok := isInduction(phi); !ok {
+					continue
+				}
+				for _, e := range phi.Edges {
+					inc, ok := e.(*ssa.BinOp)
+					if !ok || inc.Referrers() == nil {
+						continue
+					}
+					for _, ref := range *inc.Referrers() {
+						t, ok := ref.(*ssa.BinOp)
+						if !ok || t.Referrers() == nil {
+							continue
+						}
+						var other ssa.Value
+						switch {
+						case t.X == ssa.Value(inc) && (t.Op == token.LSS || t.Op == token.NEQ):
+							other = t.Y
+						case t.Y == ssa.Value(inc) && (t.Op == token.GTR || t.Op == token.NEQ):
+							other = t.X
+						}
+						if other == nil || !c13SameInt(other, bound) {
+							continue
+						}
+						for _, r2 := range *t.Referrers() {
+							if ifi, ok := r2.(*ssa.If); ok && len(ifi.Block().Succs) == 2 && ifi.Block().Succs[0] == head {
+								return true
+							}
+						}
+					}
+				}
+			}
+		}
+		return false
+	}
+	// rotated loops may test the incremented value: i+1 < N
 	if inc, ok := iv.(*ssa.BinOp); ok && inc.Op == token.ADD {
 		if one, ok := ConstInt(inc.Y); ok && one == 1 {
 			iv = inc.X
 		}
 	}
-	ph, ok := iv.(*ssa.Phi)
-	if !ok {
-		return false
-	}
-	zero, step := false, false
-	for _, e := range ph.Edges {
-		if n, ok := ConstInt(e); ok && n == 0 {
-			zero = true
-			continue
-		}
-		if inc, ok := e.(*ssa.BinOp); ok && inc.Op == token.ADD && inc.X == ssa.Value(ph) {
-			if one, ok := ConstInt(inc.Y); ok && one == 1 {
-				step = true
-				continue
-			}
-		}
-		return false
-	}
-	return zero && step
+	_, ok := isInduction(iv)
+	return ok
 }
 
 // mentionsGateDone reports whether fn (deep) calls (*Gate).Done or takes it as
